@@ -75,18 +75,21 @@ fn main() {
         // new handles that no allowed variable refers to
         let reachable: HashSet<&String> = after.iter().filter(|(k, _)| allowed.contains(*k)).map(|(_, v)| v).collect();
         let leaked = hafter.iter().filter(|h| !hbefore.contains(*h) && !reachable.contains(h)).count();
+        // collections of the caller that are gone after the call (none of the script commands releases a caller's collection)
+        let lost = hbefore.iter().filter(|h| !hafter.contains(*h)).count();
         changed.sort();
         newv.sort();
         gone.sort();
         scoped.sort();
         format!(
-            "{}\tchanged={}\tnew={}\tgone={}\tscoped={}\thandles={}",
+            "{}\tchanged={}\tnew={}\tgone={}\tscoped={}\thandles={}\tlost={}",
             status,
             enc_list(&changed),
             enc_list(&newv),
             enc_list(&gone),
             enc_list(&scoped),
-            leaked
+            leaked,
+            lost
         )
     });
 }
